@@ -44,6 +44,9 @@ func driveTimerPanic(opt *Options) error {
 	if opt.Extra["child"] == "defaults" {
 		return timerDefaultsChild(opt)
 	}
+	if opt.Extra["mode"] == "long" {
+		return timerLongDelays(opt)
+	}
 	rnd := rand.New(rand.NewSource(opt.Seed))
 	tw, err := NewTraceWriter(opt.Out)
 	if err != nil {
@@ -365,5 +368,73 @@ func timerDefaultsChild(opt *Options) error {
 	mu.Lock()
 	f.Write([]byte("{\"e\":\"Done\"}\n"))
 	mu.Unlock()
+	return nil
+}
+
+
+// timerLongDelays: delays of ten seconds and more, waited out (everything else in the timed passes lasts milliseconds):
+// never early - by a single microsecond -, at most once, and started at all.  No lateness bound; quiescence 5 s after the
+// last due time, so a loaded host changes nothing.
+func timerLongDelays(opt *Options) error {
+	tw, err := NewTraceWriter(opt.Out)
+	if err != nil {
+		return err
+	}
+	defer tw.Close()
+	raw := opt.Out + ".raw"
+	defer os.Remove(raw)
+	f, err := os.OpenFile(raw, os.O_CREATE|os.O_WRONLY|os.O_TRUNC|os.O_APPEND, 0o644)
+	if err != nil {
+		return err
+	}
+	var mu sync.Mutex
+	emit := func(m map[string]any) {
+		b, _ := json.Marshal(m)
+		mu.Lock()
+		f.Write(append(b, '\n'))
+		mu.Unlock()
+	}
+	start := time.Now()
+	now := func() int64 { return time.Since(start).Microseconds() }
+	var delays []time.Duration
+	for i := 0; i < 8; i++ {
+		delays = append(delays, 10*time.Second+time.Duration(i)*7*time.Millisecond)
+	}
+	delays = append(delays, 10*time.Second-time.Millisecond, 10500*time.Millisecond+3*time.Millisecond, 11*time.Second+333*time.Microsecond, 12*time.Second+17*time.Millisecond)
+	if opt.Extra["tier"] == "thorough" {
+		delays = append(delays, 20*time.Second+11*time.Millisecond, 30*time.Second+29*time.Millisecond, 31*time.Second+1*time.Millisecond, 61*time.Second+13*time.Millisecond)
+	}
+	emit(map[string]any{"e": "Begin", "late": 0, "L": 0, "Q": 5000000, "idle": 30000000, "slack": 1000000, "maxw": 10, "unit": 0, "gap": 0})
+	var wg sync.WaitGroup
+	last := time.Duration(0)
+	for i, d := range delays {
+		i := i
+		wg.Add(1)
+		var once sync.Once
+		tb := now()
+		timeout.Call(func() { emit(map[string]any{"e": "Start", "i": i, "t": now()}); once.Do(wg.Done) }, d)
+		emit(map[string]any{"e": "Call", "i": i, "d": d.Microseconds(), "tb": tb, "ta": now()})
+		if d > last {
+			last = d
+		}
+	}
+	done := make(chan struct{})
+	go func() { wg.Wait(); close(done) }()
+	select {
+	case <-done:
+		time.Sleep(100 * time.Millisecond) // a second start of one of them would come now
+	case <-time.After(last + 6*time.Second):
+	}
+	emit(map[string]any{"e": "Quiesce", "t": now()})
+	mu.Lock()
+	f.Close()
+	mu.Unlock()
+	evs, _, err := readRawTimerEvents(raw)
+	if err != nil {
+		return err
+	}
+	for _, e := range evs {
+		tw.Emit(e)
+	}
 	return nil
 }
